@@ -256,4 +256,94 @@ theorem field_engine_eq_spec (cap : Nat) (f : Field ν) (rows : List (Row ν))
     (fun _ _ => trivial) (fun _ _ => trivial)
 
 end compose
+section capflags
+variable {ν : Type} [NumOps ν]
+
+theorem nodup_distinct {K : Type} [DecidableEq K] (l : List K) : (distinct l).Nodup := by
+  induction l with
+  | nil => simp [distinct]
+  | cons x xs ih =>
+    unfold distinct
+    by_cases hx : x ∈ xs
+    · rw [if_pos hx]; exact ih
+    · rw [if_neg hx]
+      exact List.nodup_cons.2 ⟨fun h => hx ((mem_distinct x xs).1 h), ih⟩
+
+theorem length_eq_distinct {K : Type} [DecidableEq K] (keys l : List K) (hnd : keys.Nodup)
+    (hmem : ∀ k, k ∈ keys ↔ k ∈ l) : keys.length = (distinct l).length := by
+  apply Nat.le_antisymm
+  · exact List.Nodup.length_le_of_subset hnd (fun k hk => (mem_distinct k l).2 ((hmem k).1 hk))
+  · exact List.Nodup.length_le_of_subset (nodup_distinct l) (fun k hk => (hmem k).2 ((mem_distinct k l).1 hk))
+
+def capStep (cap : Nat) (acc : List (List KVal) × List Bool) (r : FRow (List KVal) (Row ν)) :
+    List (List KVal) × List Bool :=
+  ((if r.live && !acc.1.contains r.key then r.key :: acc.1 else acc.1),
+   decide ((if r.live && !acc.1.contains r.key then r.key :: acc.1 else acc.1).length ≤ cap) :: acc.2)
+
+theorem capFlags_fold (cap : Nat) (rows : List (FRow (List KVal) (Row ν))) :
+    capFlags cap rows = (rows.foldl (capStep cap) ([], [])).2.reverse := rfl
+
+theorem liveKeys_snoc {K α : Type} (pre : List (FRow K α)) (r : FRow K α) :
+    liveKeys (pre ++ [r]) = if r.live then liveKeys pre ++ [r.key] else liveKeys pre := by
+  unfold liveKeys
+  by_cases h : r.live = true <;> simp [List.filter_append, h]
+
+theorem capFold_spec (cap : Nat) :
+    ∀ (rows pre : List (FRow (List KVal) (Row ν))) (keys : List (List KVal)) (flags : List Bool),
+      keys.Nodup → (∀ k, k ∈ keys ↔ k ∈ liveKeys pre) →
+      (rows.foldl (capStep cap) (keys, flags)).2.reverse = flags.reverse ++ prefixFlags cap pre rows := by
+  intro rows
+  induction rows with
+  | nil => intro pre keys flags _ _; simp [prefixFlags]
+  | cons r rs ih =>
+    intro pre keys flags hnd hmem
+    simp only [List.foldl_cons]
+    have hnd' : (if r.live && !keys.contains r.key then r.key :: keys else keys).Nodup := by
+      by_cases hc : (r.live && !keys.contains r.key) = true
+      · rw [if_pos hc]
+        have : r.key ∉ keys := by
+          simp at hc; exact hc.2
+        exact List.nodup_cons.2 ⟨this, hnd⟩
+      · rw [if_neg hc]; exact hnd
+    have hmem' : ∀ k, k ∈ (if r.live && !keys.contains r.key then r.key :: keys else keys) ↔
+        k ∈ liveKeys (pre ++ [r]) := by
+      intro k
+      rw [liveKeys_snoc]
+      by_cases hl : r.live = true
+      · rw [if_pos hl]
+        by_cases hk : keys.contains r.key = true
+        · have hk' : r.key ∈ keys := by simpa using hk
+          simp only [hl, hk, Bool.not_true, Bool.and_false, Bool.false_eq_true, if_false]
+          rw [hmem k, List.mem_append]
+          constructor
+          · intro h; exact Or.inl h
+          · intro h
+            rcases h with h | h
+            · exact h
+            · simp at h; rw [h]; exact (hmem r.key).1 hk'
+        · have hk' : keys.contains r.key = false := by simpa using hk
+          simp only [hl, hk', Bool.not_false, Bool.and_true, if_true]
+          rw [List.mem_cons, List.mem_append, hmem k]
+          simp [or_comm]
+      · have hl' : r.live = false := by simpa using hl
+        simp [hl', hmem k]
+    have := ih (pre ++ [r]) _ (decide ((if r.live && !keys.contains r.key then r.key :: keys else keys).length ≤ cap) :: flags) hnd' hmem'
+    have hstep : capStep cap (keys, flags) r =
+        ((if r.live && !keys.contains r.key then r.key :: keys else keys),
+         decide ((if r.live && !keys.contains r.key then r.key :: keys else keys).length ≤ cap) :: flags) := rfl
+    rw [hstep, this]
+    simp only [List.reverse_cons, List.append_assoc, List.singleton_append, prefixFlags]
+    congr 2
+    unfold withinCap
+    rw [length_eq_distinct _ _ hnd' hmem']
+
+/-- the oracle's incremental cap flags are the theorems' `withinCap` of every prefix -/
+theorem capFlags_eq (cap : Nat) (rows : List (FRow (List KVal) (Row ν))) :
+    capFlags cap rows = prefixFlags cap [] rows := by
+  rw [capFlags_fold]
+  have := capFold_spec cap rows [] [] [] (by simp) (by simp [liveKeys])
+  simpa using this
+
+
+end capflags
 end Analytic
